@@ -47,6 +47,13 @@ def _mem(v):
     return None
 
 
+# operations whose result is a new polynomial by nature (arithmetic, elementary functions, products, factorizations): the
+# result must not share memory with an operand - otherwise an in-place update of the result (term = x**k; term *= c) would
+# silently modify the operand.  (get, T, reshape, real, diag, ... hand out views on purpose and are not listed.)
+FRESH_RESULT = ('un', 'unp', 'bin', 'binc', 'pow', 'powreg', 'rpowc', 'neg', 'abs', 'minmax', 'dot', 'dotc', 'dotnd', 'outer', 'inv',
+                'solve', 'solvec', 'det', 'logdet', 'expm', 'sum', 'prod', 'trace', 'umax')
+
+
 def prop_operands(case, stats):
     X = [UTPM(d) for d in M.utpm_inputs(case)]
     regs = list(X)
@@ -65,6 +72,15 @@ def prop_operands(case, stats):
             if _bytes(r) != s0:
                 raise Violation('instruction %d (%s) modified register %d (%s), which is only an operand/bystander'
                                 % (n, ins[0] + (':' + str(ins[1]) if isinstance(ins[1], str) else ''), i, M.opname(case, i)))
+        if ins[0] in FRESH_RESULT and isinstance(out, UTPM):
+            for i, r in enumerate(regs):
+                m = _mem(r)
+                if m is not None and np.shares_memory(m, out.data):
+                    raise Violation('instruction %d (%s): the result shares memory with register %d (%s): an in-place update of the '
+                                    'result would modify the operand' % (n, ins[0] + (':' + str(ins[1]) if isinstance(ins[1], str) else ''), i, M.opname(case, i)))
+            for k, a in enumerate(ins):
+                if isinstance(a, np.ndarray) and np.shares_memory(a, out.data):
+                    raise Violation('instruction %d (%s): the result shares memory with its ndarray constant operand' % (n, ins[0]))
         regs.append(out)
     for n, k, b in consts:
         if prog[n][k].tobytes() != b:
